@@ -20,9 +20,10 @@ EXTENDS ImageWriters, Json, IOUtils, SequencesExt, FiniteSetsExt
 
 CONSTANTS Widths,       \* the large dimension
           Shorts,       \* the small dimension
-          Part          \* "wide" | "tall" | "mid": which cases this run emits (runs are independent)
+          Part,         \* "wide" | "tall" | "mid" | "huge" | "sweep": which cases this run emits (runs are independent)
+          SweepVals     \* byte values for the sweep part
 
-ASSUME LawsPix == PixLaws
+ASSUME LawsPix == IF Part = "sweep" THEN SweepLaws ELSE PixLaws
 
 \* the index laws on large sizes, by counting (the pairwise formulation is quadratic)
 BigLaw(w, W, H) ==
@@ -31,20 +32,24 @@ BigLaw(w, W, H) ==
      /\ Cardinality(img) = OutLen(w, W, H)                 \* injective
      /\ img = Selected(w, W, H)                            \* onto exactly the selected components
      /\ RowLaw(w, H) /\ HeaderLaw(w)
-ASSUME LawsBig == \A w \in Writers : IF Part = "wide" THEN BigLaw(w, 1025, 2) ELSE IF Part = "tall" THEN BigLaw(w, 2, 1025) ELSE BigLaw(w, 40, 30)
+ASSUME LawsBig == \A w \in Writers : IF Part = "wide" THEN BigLaw(w, 1025, 2) ELSE IF Part = "tall" THEN BigLaw(w, 2, 1025)
+                                      ELSE IF Part = "huge" THEN BigLaw(w, 255, 257) ELSE BigLaw(w, 40, 30)
 
+\* huge: one dimension around 2^16 (a 16-bit size or index somewhere), and images of about 2^16 pixels
 Sizes == IF Part = "wide" THEN Widths \X Shorts
          ELSE IF Part = "tall" THEN Shorts \X Widths
+         ELSE IF Part = "huge" THEN (Widths \X Shorts) \cup (Shorts \X Widths) \cup {<<256, 256>>, <<255, 257>>}
+         ELSE IF Part = "sweep" THEN {<<2, 2>>, <<2, 1>>, <<1, 2>>}
          ELSE {<<300, 200>>}
 
-PatOf(W, H) == 1 + ((W + H) % 2)
+PatOf(W, H) == 1 + ((W + H) % 3)
 Sorted(S) == SetToSortSeq(S, <)
 
 RowSum(vals)  == FoldSet(LAMBDA i, acc : (acc + vals[i]) % Prime, 0, DOMAIN vals)
 RowWSum(vals) == FoldSet(LAMBDA i, acc : (acc + (((i - 1) % 251) + 1) * vals[i]) % Prime, 0, DOMAIN vals)
 
-CaseOf(w, W, H) ==
-  LET pat  == PatOf(W, H)
+CaseOf(w, W, H, pat) ==
+  LET
       rows == Sorted(SampleRows(H))
       cols == Sorted(SampleCols(W))
       rv   == [row \in 1..H |-> RowVals(w, W, H, pat, row - 1)]
@@ -61,7 +66,9 @@ CaseOf(w, W, H) ==
                rowsum  |-> [row \in 1..H |-> RowSum(rv[row])],
                rowwsum |-> [row \in 1..H |-> RowWSum(rv[row])]]]
 
-Cases == {CaseOf(w, s[1], s[2]) : w \in Writers, s \in Sizes}
+Cases == IF Part = "sweep"
+         THEN {CaseOf(w, s[1], s[2], 100 + v) : w \in {"writePPM", "writePGM", "writePFM_vec3fa"}, s \in Sizes, v \in SweepVals}
+         ELSE {CaseOf(w, s[1], s[2], PatOf(s[1], s[2])) : w \in Writers, s \in Sizes}
 
 ASSUME Emit == ndJsonSerialize(IOEnv.OUT, SetToSeq(Cases))
 ===============================================================================
